@@ -950,3 +950,105 @@ Proof.
   induction l as [|h t IH]; [reflexivity|]. unfold ns_drops in *. cbn [flat_map].
   rewrite ns_res_app, IH. destruct (ns_ncon h); reflexivity.
 Qed.
+
+Ltac ns_mon_open Ho :=
+  unfold ns_mon_step; cbn [ns_abs ns_mopen ns_mest ns_minfl ns_mpend]; rewrite Ho; cbn [negb].
+
+Lemma ns_mon_step_submit c s m : ns_wf c -> ns_inv c s -> ns_open s = true ->
+  ns_mon_step c (ns_abs s) (NsSubmit m) (snd (ns_step c s (NsSubmit m))) =
+  Some (ns_abs (fst (ns_step c s (NsSubmit m)))).
+Proof.
+  intros Hwf Hi Ho. pose proof (ns_step_inv c s (NsSubmit m) Hwf Hi) as Hi'.
+  revert Hi'. unfold ns_step. rewrite Ho. cbn [negb]. unfold ns_submit.
+  destruct (negb (ns_est s) || ns_con m && (ns_nstart c <=? ns_act s)) eqn:Eh.
+  - destruct (existsb (fun q => ns_nmid q =? ns_mid m) (ns_dq s)) eqn:Ex; ns_simp; intros Hi'.
+    + ns_mon_open Ho. cbn. rewrite ns_existsb_mid_map, Ex. unfold ns_abs. rewrite ?Ho. reflexivity.
+    + ns_mon_open Ho. simpl ns_gaveup; simpl ns_res; simpl ns_accepted; simpl ns_txs;
+        cbn [fold_left forallb negb].
+      assert (E1 : ns_est s && negb (ns_con m) = false).
+      { destruct (ns_est s); [|reflexivity]. cbn [negb orb] in Eh.
+        destruct (ns_con m); [reflexivity|discriminate]. }
+      rewrite E1.
+      pose proof (ns_quiescent_inv c _ Hi') as Hq. ns_simp. rewrite map_app in Hq. cbn [map ns_nmsg] in Hq.
+      rewrite Hq. unfold ns_abs. ns_simp. rewrite ?Ho, map_app. reflexivity.
+  - apply orb_false_iff in Eh. destruct Eh as [He Eh]. apply negb_false_iff in He.
+    destruct (ns_con m) eqn:Ec; ns_simp; intros Hi'.
+    + ns_mon_open Ho. simpl ns_gaveup; simpl ns_res; simpl ns_accepted; simpl ns_txs;
+        cbn [fold_left forallb negb].
+      rewrite ns_msg_eqb_refl, He, Ec. cbn [andb].
+      pose proof (iv_le _ _ Hi') as Hle. pose proof (iv_act _ _ Hi') as Hact. ns_simp.
+      rewrite Hact in Hle. rewrite app_length, map_length. rewrite app_length in Hle.
+      cbn [length] in *.
+      destruct (Z.of_nat (length (ns_sq s) + 1) <=? ns_nstart c) eqn:El; [|lia].
+      unfold ns_abs. ns_simp. rewrite ?Ho, ?He, map_app. reflexivity.
+    + ns_mon_open Ho. simpl ns_gaveup; simpl ns_res; simpl ns_accepted; simpl ns_txs;
+        cbn [fold_left forallb negb].
+      rewrite ns_msg_eqb_refl, He, Ec. cbn [andb].
+      pose proof (iv_le _ _ Hi') as Hle. pose proof (iv_act _ _ Hi') as Hact.
+      rewrite Hact in Hle. rewrite map_length.
+      destruct (Z.of_nat (length (ns_sq s)) <=? ns_nstart c) eqn:El; [|lia].
+      unfold ns_abs. rewrite ?Ho, ?He. reflexivity.
+Qed.
+
+Lemma ns_rel_open s s' b t : ns_rel s s' b t -> ns_open s = true -> ns_open s' = true.
+Proof. intros (A & _) H. congruence. Qed.
+
+Lemma ns_mon_step_fail c s r evs : ns_wf c -> ns_inv c s -> ns_open s = true ->
+  ns_budget s evs ->
+  ns_mon_step c (ns_abs s) (NsFail r) (snd (ns_step c s (NsFail r))) =
+  Some (ns_abs (fst (ns_step c s (NsFail r)))).
+Proof.
+  intros Hwf Hi Ho Hb. unfold ns_step. rewrite Ho. cbn [negb]. unfold ns_fail.
+  set (first := match ns_sq s with n :: _ => [NsNack r (ns_nmid n) true] | [] => [] end).
+  set (fb := match ns_lg s with m :: _ => [NsNack r m true] | [] => [NsNack r 0 false] end).
+  assert (Ftx : ns_txs first = []) by (unfold first; destruct (ns_sq s); reflexivity).
+  assert (Fre : ns_res first = []) by (unfold first; destruct (ns_sq s); reflexivity).
+  assert (Btx : ns_txs fb = []) by (unfold fb; destruct (ns_lg s); reflexivity).
+  assert (Bre : ns_res fb = []) by (unfold fb; destruct (ns_lg s); reflexivity).
+  destruct (r =? ns_ICMP) eqn:Er; ns_simp.
+  - ns_mon_open Ho. rewrite Er.
+    assert (E : ns_txs (match first with [] => fb | _ :: _ => first end) = [] /\
+                ns_res (match first with [] => fb | _ :: _ => first end) = []).
+    { destruct first; split; assumption. }
+    destruct E as [E1 E2]. rewrite E1, E2. cbn [forallb negb].
+    (* r = ICMP <> TOO_MANY: nothing counts as given up *)
+    assert (G : ns_gaveup (match first with [] => fb | _ :: _ => first end) = []).
+    { apply Z.eqb_eq in Er. subst r. unfold first, fb.
+      destruct (ns_sq s); [destruct (ns_lg s)|]; reflexivity. }
+    rewrite G. cbn [fold_left]. unfold ns_abs. rewrite Ho. reflexivity.
+  - ns_mon_open Ho. rewrite Er.
+    set (o := first ++ ns_drops r (ns_dq s) ++
+              (if match first with [] => match filter ns_ncon (ns_dq s) with [] => false | _ => true end
+                  | _ => true end then [] else fb) ++ ns_nacks r (ns_sq s)).
+    assert (Otx : ns_txs o = []).
+    { unfold o. rewrite !ns_txs_app, Ftx, ns_txs_drops, ns_txs_nacks.
+      destruct first; [destruct (filter ns_ncon (ns_dq s))|]; cbn; rewrite ?Btx; reflexivity. }
+    assert (Ore : ns_res o = []).
+    { unfold o. rewrite !ns_res_app, Fre, ns_res_drops, ns_res_nacks.
+      destruct first; [destruct (filter ns_ncon (ns_dq s))|]; cbn; rewrite ?Bre; reflexivity. }
+    fold o. rewrite Otx, Ore. cbn [forallb negb].
+    match goal with |- (if ?b then _ else _) = _ => assert (Hall : b = true) end.
+    2: { rewrite Hall. reflexivity. }
+    rewrite forallb_forall. intros p Hp. apply in_map_iff in Hp. destruct Hp as (q & Hq & Hin).
+    subst p. destruct (ns_con (ns_nmsg q)) eqn:Ec; [|reflexivity]. cbn [negb orb].
+    apply Nat.eqb_eq. specialize (Hb (ns_nmid q)).
+    destruct (ns_nack_count_drops (ns_nmid q) r (ns_dq s)) as [D1 D2].
+    specialize (D2 q Hin Ec eq_refl).
+    pose proof (ns_nack_count_nacks (ns_nmid q) r (ns_sq s)) as N1.
+    unfold o. rewrite !ns_nack_count_app.
+    assert (F0 : ns_nack_count (ns_nmid q) first = 0%nat).
+    { unfold first. destruct (ns_sq s) as [|n t]; [reflexivity|].
+      unfold ns_nack_count. cbn [filter].
+      destruct (ns_nmid n =? ns_nmid q) eqn:En; [|reflexivity].
+      exfalso. unfold ns_cmn, ns_cm in Hb. cbn [map count_occ] in Hb. unfold ns_nmid in En.
+      destruct (Z.eq_dec (ns_mid (ns_nmsg n)) (ns_nmid q)); [|unfold ns_nmid in *; lia].
+      unfold ns_cmn, ns_cm in D1. lia. }
+    assert (B0 : ns_nack_count (ns_nmid q)
+                  (if match first with [] => match filter ns_ncon (ns_dq s) with [] => false | _ => true end
+                      | _ => true end then [] else fb) = 0%nat).
+    { destruct first; [|reflexivity].
+      destruct (filter ns_ncon (ns_dq s)) eqn:Ef; [|reflexivity].
+      exfalso. assert (In q (filter ns_ncon (ns_dq s))) by (apply filter_In; split; assumption).
+      rewrite Ef in H. exact H. }
+    unfold ns_nmid in *. rewrite F0, B0. unfold ns_cmn, ns_cm in *. lia.
+Qed.
